@@ -1,5 +1,5 @@
 (* C02 -- accepted requests are exactly those of the documented grammar, fields verbatim. *)
-From MH Require Import proofs.Grammar_proofs proofs.Grammar_conv proofs.Impl_proofs.
+From MH Require Import proofs.Grammar_proofs proofs.Grammar_conv proofs.Grammar_stream proofs.Impl_proofs.
 
 (* a request line is accepted iff it is METHOD SP URI SP VERSION with METHOD and VERSION from the
    (source-tied) tables and a non-empty UTF-8 URI without spaces; the fields are exactly those bytes *)
@@ -85,12 +85,47 @@ Theorem C02_line_inversion : forall BUF w l rest,
   w = l ++ CRLF ++ rest /\ find_crlf (l ++ [CR]) = None /\ (length l + 2 <= BUF)%nat.
 Proof. exact take_line_inv. Qed.
 
-(* PARTIAL.  Not a single theorem: "the error kind names the first offending element of the whole
-   stream".  Its ingredients are proved: a run stops at the first step that fails (runT_unfold), a
-   step fails exactly as take_line (C04_line_iff), parse_reqline (C02_reqline_precedence) or the
-   header rules (C15) say, and everything before it was delivered (C02_wellformed_delivered).  The
-   correspondence run compares the implementation with an independent recogniser of the grammar,
-   including the error kind, on every generated stream. *)
+(* the outcome "parse error", classified for whole streams of any length: parse_stream s = RErr o e
+   IFF s is a sequence of well-formed request encodings -- all delivered: o is exactly their
+   deliveries, in order -- followed by a tail whose first, incomplete request has the fault e, i.e.
+   the FIRST offending element in stream order: a first line that reaches the line limit without
+   CRLF (InvalidRequest), a complete first line rejected as a request line (kind by
+   C02_reqline_precedence), or, after a good request line and good header lines, a header line
+   that reaches the line limit, one rejected by the header rules (C15), or the blank line with a
+   declared length above the payload limit *)
+Theorem C02_stream_error_iff : forall BUF, (2 <= BUF)%nat -> forall L s o e,
+  parse_stream BUF L s = RErr o e <->
+  exists qs t, Forall (WF BUF L) qs /\ s = enc_all qs ++ t /\ o = outs_all qs /\ fault BUF L t e.
+Proof. exact stream_error_iff. Qed.
+Check ((fun BUF L q => eq_refl) : forall BUF L q, WF BUF L q =
+  (parse_reqline (q_rlb q) = Ok (q_rl q) /\ line_ok BUF (q_rlb q) /\
+   Forall (fun l => l <> [] /\ line_ok BUF l) (q_hs q) /\ fold_lines headers_default (q_hs q) = Ok (q_hd q) /\
+   h_content_length (q_hd q) <= L /\ lenN (q_body q) = h_content_length (q_hd q))).
+Check ((fun q => eq_refl) : forall q, enc q = q_rlb q ++ CRLF ++ Grammar_proofs.with_crlf (q_hs q) ++ CRLF ++ q_body q).
+Check ((fun q => eq_refl) : forall q, outs q =
+  interim (q_rl q) (q_hd q) ++ [ORequest (q_rl q) (q_hd q) (delivered_body (q_hd q) (q_body q))]).
+Check (FT_long : forall BUF L t, take_line BUF t = LTooLong -> fault BUF L t InvalidRequest).
+Check (FT_reqline : forall BUF L t l rest e, take_line BUF t = LLine l rest -> parse_reqline l = Err e -> fault BUF L t e).
+Check (FT_hdr : forall BUF L t rlb rl hs h r e, parse_reqline rlb = Ok rl -> line_ok BUF rlb ->
+    Forall (fun l => l <> [] /\ line_ok BUF l) hs -> fold_lines headers_default hs = Ok h ->
+    t = rlb ++ CRLF ++ Grammar_proofs.with_crlf hs ++ r -> hdr_fault BUF L h r e -> fault BUF L t e).
+Check (HF_long : forall BUF L h r, take_line BUF r = LTooLong -> hdr_fault BUF L h r (HeaderError (HSizeLimitExceeded (firstn BUF r)))).
+Check (HF_line : forall BUF L h r l rest e, take_line BUF r = LLine l rest -> l <> [] -> parse_header_tolerant h l = Err e -> hdr_fault BUF L h r e).
+Check (HF_size : forall BUF L h r rest, take_line BUF r = LLine [] rest -> L < h_content_length h ->
+    hdr_fault BUF L h r (SizeLimitExceeded L (h_content_length h))).
+
+(* so the error kind and the deliveries before it do not depend on how the stream is cut into
+   "requests, then a faulty tail" *)
+Theorem C02_fault_deterministic : forall BUF, (2 <= BUF)%nat -> forall L qs1 t1 e1 qs2 t2 e2,
+  Forall (WF BUF L) qs1 -> Forall (WF BUF L) qs2 -> enc_all qs1 ++ t1 = enc_all qs2 ++ t2 ->
+  fault BUF L t1 e1 -> fault BUF L t2 e2 -> e1 = e2 /\ outs_all qs1 = outs_all qs2.
+Proof. exact fault_deterministic. Qed.
+
+(* non-vacuity: one good request, then a request whose second header line has no colon *)
+Example C02_stream_error_ex :
+  parse_stream 1024 51200 (B"GET /a HTTP/1.1" ++ CRLF ++ CRLF ++ B"PUT /b HTTP/1.0" ++ CRLF ++ B"Content-Length: 3" ++ CRLF ++ B"oops" ++ CRLF)
+  = RErr [ORequest (mkRL Get (B"/a") Http11) headers_default None] (HeaderError (InvalidFormat (B"oops"))).
+Proof. vm_compute. reflexivity. Qed.
 
 Example C02_ex :
   match parse_stream 1024 51200 (B"PUT /x HTTP/1.1" ++ CRLF ++ B"Content-Length: 2" ++ CRLF ++ CRLF ++ B"ab" ++ B"GET") with
@@ -108,3 +143,5 @@ Print Assumptions C02_transfer.
 Print Assumptions C02_delivered_wellformed.
 Print Assumptions C02_accept_iff.
 Print Assumptions C02_line_inversion.
+Print Assumptions C02_stream_error_iff.
+Print Assumptions C02_fault_deterministic.
